@@ -730,7 +730,7 @@ func c02Site(kind string) (*liveSite, error) {
 
 type c02MEl struct {
 	Root   string `json:"root"`             // the site root relative to <base>/m: one of c02MRoots
-	Spell  int    `json:"spell,omitempty"`  // how the root directive spells it: 0 cleaned, 1 trailing slash, 2 with "/./", 3 with "x/../"
+	Spell  int    `json:"spell,omitempty"`  // how the root directive spells it: 0 cleaned, 1 trailing slash, 2 with "/./", 3 with "x/../"; 4: NO root directive, the root is the default one (httpserver.Root, as the -root flag sets it)
 	Port   int    `json:"port,omitempty"`   // port group: sites of the same group share a listener
 	Keys   int    `json:"keys,omitempty"`   // addresses on the block (1 if 0): every address is a site config of its own
 	Browse bool   `json:"browse,omitempty"` // browse / with servearchive zip tar.gz
@@ -809,7 +809,9 @@ func c02MText(fx *c02Fix, conf []c02MEl, ports []int) string {
 			site++
 		}
 		sb.WriteString(strings.Join(keys, ", ") + " {\n")
-		sb.WriteString("\troot " + c02MAbsRoot(fx, e) + "\n")
+		if e.Spell != 4 {
+			sb.WriteString("\troot " + c02MAbsRoot(fx, e) + "\n")
+		}
 		for _, p := range c02MInternal {
 			sb.WriteString("\tinternal " + p + "\n")
 		}
@@ -849,6 +851,16 @@ func c02MStart(conf []c02MEl) (*c02MInst, error) {
 		}
 	}
 	origin := filepath.Join(fx.mbase, filepath.FromSlash(c02MOrigin))
+	httpserver.Root = httpserver.DefaultRoot
+	for _, e := range conf {
+		if e.Spell == 4 { // the sites without a root directive share the default root
+			if httpserver.Root != httpserver.DefaultRoot && httpserver.Root != c02MAbsRoot(fx, e) {
+				return nil, fmt.Errorf("two default roots in one configuration")
+			}
+			httpserver.Root = c02MAbsRoot(fx, e)
+		}
+	}
+	defer func() { httpserver.Root = httpserver.DefaultRoot }()
 	var lastErr error
 	for try := 0; try < 5; try++ {
 		ports, err := c02FreePorts(groups)
@@ -1892,6 +1904,14 @@ func c02GenMulti(r *Rand, thorough bool) []interface{} {
 			}
 			if r.Chance(10) {
 				conf[i].Keys = 2
+			}
+		}
+		if r.Chance(25) { // one site (and those sharing its root) without a root directive: the default root
+			k := r.Intn(len(conf))
+			for i := range conf {
+				if conf[i].Root == conf[k].Root {
+					conf[i].Spell = 4
+				}
 			}
 		}
 		nsites := 0
